@@ -192,9 +192,19 @@ func TestVerif_C28_RetryPolicy(t *testing.T) {
 					prev := as[k-1]
 					retryableOutcome := prev.Outcome == "transport" || prev.Outcome == "loading" || prev.ConnKilled
 					// a batch is re-sent as a whole when any of its members failed in a retryable way
-					for _, other := range op.Cmds {
-						oa := attempts[other.UID]
-						if k-1 >= len(oa) || oa[k-1].Outcome == "transport" || oa[k-1].Outcome == "loading" || oa[k-1].ConnKilled {
+					// (the members of one send occupy consecutive request slots of one connection; a member that never
+					// reached the server on that connection means the connection was lost within the batch)
+					for j, other := range op.Cmds {
+						found := false
+						for _, a := range attempts[other.UID] {
+							if a.Conn == prev.Conn && a.Req == prev.Req-i+j {
+								found = true
+								if a.Outcome == "transport" || a.Outcome == "loading" || a.ConnKilled {
+									retryableOutcome = true
+								}
+							}
+						}
+						if !found {
 							retryableOutcome = true
 						}
 					}
